@@ -1199,6 +1199,10 @@ class CBCFileIO(_CryptoFileBase):
             # this is done since we may not know the original size of the file
             # and the caller may have requested -1 to read all the remaining data
             data_before = self._reader.read(before)
+            if len(iv) != 0x10 or len(data_before) != before:
+                # the position is beyond the end of the data: nothing to return, and the position must not move
+                self._reader.seek(offset - self._reader.tell(), 1)
+                return b''
             data_requested = self._reader.read(size)
             data_requested_len = len(data_requested)
             data_total_len = len(data_before) + data_requested_len
